@@ -118,8 +118,8 @@ try:
     rc, out = sh("/verif/check %s %s" % (prop, tier), cwd="/verif", e=e2, timeout=7200)
     res["check_exit"] = rc
     res["caught"] = (rc == 1 and "VIOLATION property=" in out)
-    sigs = sorted(set(re.findall(r"^\s*(?:case \d+: )?\[([A-Za-z0-9:._/+-]+)\]", out, re.M)))
-    res["sigs"] = sigs[:8]
+    sigs = sorted(set(re.findall(r"^\s*(?:\S+\.go:\d+: )?(?:case \d+: )?\[([A-Za-z0-9:._/+-]+)\]", out, re.M)))
+    res["sigs"] = [x for x in sigs if x != "rapid"][:8]
     if rc == 2:
         res["check_output_tail"] = out[-600:]
 finally:
